@@ -44,24 +44,22 @@ Proof.
     apply andb_true_iff. split; apply Z.eqb_eq; congruence.
 Qed.
 
-(* the code decides op:same-key on every pair of well-formed keys except a boolean against a number *)
-Lemma impl_eq_spec : forall a b, wfk a = true -> wfk b = true -> bool_vs_number a b = false ->
+(* the code decides op:same-key on every pair of well-formed keys *)
+Lemma impl_eq_spec : forall a b, wfk a = true -> wfk b = true ->
   same_key_impl a b = same_key_spec a b.
 Proof.
-  intros [f s|t v|b|q|h o|f v] [f' s'|t' v'|b'|q'|h' o'|f' v'] Wa Wb N; cbn in N; try discriminate;
-    unfold same_key_impl; cbn; auto.
+  intros [f s|t v|b|q|h o|f v] [f' s'|t' v'|b'|q'|h' o'|f' v'] Wa Wb;
+    unfold same_key_impl; cbn; auto;
+    try (destruct t, v as [n d| | |]; cbn in *; try discriminate; auto; fail).
   - (* number, number *)
     destruct t, v as [n d| | |], t', v' as [n' d'| | |]; cbn in *; try discriminate; auto.
-  - destruct t, v as [n d| | |]; cbn in *; try discriminate; auto.
-  - destruct t, v as [n d| | |]; cbn in *; try discriminate; auto.
-  - destruct t, v as [n d| | |]; cbn in *; try discriminate; auto.
   - (* bool, bool *)
     destruct b, b'; reflexivity.
   - (* binaries *)
     destruct h, h'; cbn; auto.
 Qed.
 
-Lemma impl_bool_number_differs : same_key_impl (KBool true) (KN TInteger (NFin 1 1)) = true /\
+Lemma old_bool_number_differs : same_key_old_bool (KBool true) (KN TInteger (NFin 1 1)) = true /\
   same_key_spec (KBool true) (KN TInteger (NFin 1 1)) = false.
 Proof. split; reflexivity. Qed.
 
